@@ -10,7 +10,7 @@ from vf import core, gen, pipe
 PROPERTY = 'C18'
 RULE = ('cases = one run of outrank_task_result_summary on a generated pairwise_ranks.tsv: 1..60 features, annotated "name-(card; cov)" and '
         'plain names (also features whose name starts with the label name), one or both orientations, duplicate rows from several batches '
-        'with differing scores, feature-feature rows mixed in, negative scores, heuristic names with and without "MI", interaction orders '
+        'with differing and with identical scores, feature-feature rows mixed in, negative scores, tiny (1e-9) and large-offset (1500 + 1e-3) score ranges, heuristic names with and without "MI", interaction orders '
         '1-3 with " AND " names; plus summaries of real ranking-task outputs. distinct = (table hash, heuristic class, order); non-trivial = '
         'at least 3 features with unequal medians.')
 REQUIRED = {'features-once': 100, 'score=median': 100, 'descending': 100, 'mi-normalised': 30, 'aggregated-table': 20}
@@ -69,7 +69,8 @@ def verify(sh, folder, rows, label, heuristic, order, origin):
     got = {}
     for r in got_rows:
         got[r[0]] = float(r[1])
-    bad = [(k, got.get(k), v) for k, v in exp.items() if k not in got or abs(got[k] - v) > 1e-9 + 1e-9 * abs(v)]
+    span = (max(exp.values()) - min(exp.values())) if exp else 1.0
+    bad = [(k, got.get(k), v) for k, v in exp.items() if k not in got or abs(got[k] - v) > 1e-9 * max(span, 1e-300) + 1e-9 * abs(v)]
     sh.check('score=median' if 'MI' not in heuristic else 'mi-normalised', not bad, 'score!=median-of-label-scores' if 'MI' not in heuristic else 'score!=min-max-normalised-median', lambda: wit(wrong=bad[:6]))
     if 'MI' in heuristic:
         sh.check('mi-normalised', abs(max(got.values()) - 1.0) < 1e-9 and abs(min(got.values())) < 1e-9, 'best!=1-or-worst!=0', lambda: wit(best=max(got.values()), worst=min(got.values())))
@@ -114,17 +115,20 @@ def shard_tables(sh, part):
         nb = rng.choice([1, 1, 2, 3, 5])
         rows = []
         neg = rng.random() < 0.4
+        # score regimes: ordinary, tiny (1e-9 .. 1e-6 apart) and large with differences only in the low digits
+        regime = rng.choice(['ordinary', 'ordinary', 'tiny', 'large-offset'])
+        scale, offset = {'ordinary': (1.0, 0.0), 'tiny': (rng.choice([1e-9, 1e-7]), 0.0), 'large-offset': (1e-3, 1500.0)}[regime]
         for n in names:
             centre = rng.uniform(-1 if neg else 0, 1)
             for b in range(nb):
-                s = round(centre + rng.uniform(-0.2, 0.2), 6) if rng.random() < 0.8 else rng.choice([0.0, 0.5])
+                s = offset + scale * (round(centre + rng.uniform(-0.2, 0.2), 6) if rng.random() < 0.8 else rng.choice([0.0, 0.5]))
                 orient = rng.choice(['both', 'both', 'a', 'b'])
                 if orient in ('both', 'a'):
                     rows.append((ann[n], ann[label], s))
                 if orient in ('both', 'b'):
                     rows.append((ann[label], ann[n], s))
         for b in range(nb):
-            rows.append((ann[label], ann[label], rng.choice([0.69, 0.7, 1.0])))
+            rows.append((ann[label], ann[label], offset + scale * rng.choice([0.69, 0.7, 1.0])))
         # feature-feature rows (pairwise mode) must not influence the summary
         if rng.random() < 0.5 and nf >= 2:
             for _ in range(rng.randint(1, 20)):
